@@ -297,5 +297,6 @@ func skipInit(path string) bool {
 	return strings.HasPrefix(path, "internal/") || strings.HasPrefix(path, "runtime/") ||
 		strings.HasPrefix(path, "github.com/prometheus/") || strings.HasPrefix(path, "google.golang.org/") ||
 		strings.HasPrefix(path, "github.com/ethereum/go-ethereum/") || strings.HasPrefix(path, "github.com/libp2p/") ||
+		strings.HasPrefix(path, "github.com/gogo/protobuf") || strings.HasPrefix(path, "github.com/golang/protobuf") ||
 		strings.HasPrefix(path, "golang.org/x/sys") || strings.HasPrefix(path, "golang.org/x/net")
 }
